@@ -134,11 +134,17 @@ def build(w, variant='apply'):
                     # P1: a job is marked lost only if it is unresolved and the worker that accepted it is gone
                     'lost_only_if_its_worker_really_exited': Forall(K,
                         'implies(old(has(%s, k)) and %s._worker_lost != old(%s._worker_lost), '
-                        'old(not %s._event.flag) and (old(get(self._cache, k)._worker_pid) is not None and old(get(self._cache, k)._worker_pid) != 0 and (has(cleaned, old(get(self._cache, k)._worker_pid)) or count(all_pids, val(old(get(self._cache, k)._worker_pid))) < 1)))' % (cache, jk, jk, jk)),
+                        'old(not %s._event.flag) and (old(get(self._cache, k)._worker_pid) is not None and old(get(self._cache, k)._worker_pid) != 0 and (has(cleaned, old(get(self._cache, k)._worker_pid)) or all(implies(0 <= j and j < len(self._pool), at(self._pool, j).pid != old(get(self._cache, k)._worker_pid)) for j in ints()))))' % (cache, jk, jk, jk)),
                     # P2: every unresolved job whose worker was reaped in this tick is marked (or terminated)
                     'job_of_a_reaped_worker_is_marked': Forall(K,
                         'implies(_seen[k] and old(has(%s, k)) and entry(not get(self._cache, k)._event.flag) and old(%s._worker_pid) is not None and '
                         'old(%s._worker_pid) != 0 and has(cleaned, old(%s._worker_pid)), '
+                        '%s._worker_lost is not None or %s._event.flag)' % (cache, jk, jk, jk, jk, jk)),
+                    # P3: ... and so is every unresolved job whose worker is no longer in the pool at all (its ACK was handled
+                    # after the worker had been reaped in an earlier tick)
+                    'job_of_a_vanished_worker_is_marked': Forall(K,
+                        'implies(_seen[k] and old(has(%s, k)) and entry(not get(self._cache, k)._event.flag) and old(%s._worker_pid) is not None and '
+                        'old(%s._worker_pid) != 0 and all(implies(0 <= j and j < len(self._pool), at(self._pool, j).pid != old(%s._worker_pid)) for j in ints()), '
                         '%s._worker_lost is not None or %s._event.flag)' % (cache, jk, jk, jk, jk, jk)),
                     'clock': 'g.now > 0',
                     'resolved_stays_resolved': Forall(K, 'implies(old(has(%s, k)) and old(%s._event.flag), %s._event.flag)' % (cache, jk, jk)),
